@@ -50,12 +50,14 @@ Theorem C05_rho_and_recovereds_rejected :
 Proof. exact (gillespie_rho_and_recovereds_rejected g kind tau gamma tmin tmax full). Qed.
 
 (* rho selects int(round(N*rho)) DISTINCT nodes of the graph (one node when neither is
-   given) and the run is the run from that explicit set *)
+   given), NONE OF THEM INITIALLY RECOVERED (repaired in /repo: the default start node used to be drawn
+   from all of G), and the run is the run from that explicit set *)
 Theorem C05_rho_selects_round_N_rho_distinct_nodes :
   forall r0 rho fuel out,
     reach (gillespie g kind tau gamma None r0 rho tmin tmax full fuel) out ->
     let n := match rho with None => 1%Z | Some r => round_half_even (Qnat (length (gnodes g)) * r) end in
-    (0 <= n)%Z /\ exists i0, NoDup i0 /\ incl i0 (gnodes g) /\ Z.of_nat (length i0) = n /\
+    (0 <= n)%Z /\ exists i0, NoDup i0 /\ incl i0 (gnodes g) /\
+      (forall y, In y i0 -> ~ In y (r0_list kind r0)) /\ Z.of_nat (length i0) = n /\
       reach (gillespie g kind tau gamma (Some i0) r0 None tmin tmax full fuel) out.
 Proof. exact (gillespie_rho g Hnd kind tau gamma tmin tmax full). Qed.
 
